@@ -27,9 +27,31 @@ Fixpoint run_snaps (env : denv) (s : pstate) (ops : list op) : pstate * list sna
     end
   end.
 
+(* the implementation holds the command set as a parsed Dataset (one element per tag, the last
+   occurrence wins, ascending tags); the observation re-encodes it.  Canonical form of raw bytes: *)
+Fixpoint put_elem (x : elem) (l : list elem) : list elem :=
+  match l with
+  | [] => [x]
+  | y :: r =>
+      let '(g, e, _) := x in let '(g', e', _) := y in
+      if (g =? g') && (e =? e') then x :: r
+      else if (g <? g') || ((g =? g') && (e <? e')) then x :: l
+      else y :: put_elem x r
+  end.
+Definition canon_cmd (cmd : bytes) : bytes :=
+  match parse_cmd cmd with
+  | Ok elems => enc_elems (fold_left (fun acc x => put_elem x acc) elems [])
+  | Err _ => cmd
+  end.
+Definition canon_ind (i : indication) : indication :=
+  match i with
+  | IMsg (DMsg cf cmd data f pc) => IMsg (DMsg cf (canon_cmd cmd) data f pc)
+  | _ => i
+  end.
+
 Definition model_obs (env : denv) (requestor : bool) (maxlen : N) (ops : list op) : obs :=
   let (sf, snaps) := run_snaps env (p_init requestor maxlen) ops in
-  mkobs (match c_out (ctl sf) with Crashed => 1 | _ => 0 end) (rev (wire sf)) (rev (given sf)) snaps.
+  mkobs (match c_out (ctl sf) with Crashed => 1 | _ => 0 end) (rev (wire sf)) (map canon_ind (rev (given sf))) snaps.
 
 Definition beq_dmsg (a b : dmsg) : bool :=
   match a, b with
